@@ -412,6 +412,13 @@ def r9(ctx, prog):
             raise Unk()
         if isinstance(e, ast.Name) and e.id in P.values():
             raise Unk()     # truthiness of a float: 0.0 is a valid level
+        if isinstance(e, ast.Name):
+            # a named test:  have_rms = forced_rms is not None
+            from .c08 import _resolve_local
+            r_ = _resolve_local(fi.node, e)
+            if r_ is not e:
+                return ev(r_, given)
+            raise Unk()
         if isinstance(e, ast.UnaryOp) and isinstance(e.op, ast.Not):
             return not ev(e.operand, given)
         if isinstance(e, ast.BoolOp):
@@ -428,7 +435,13 @@ def r9(ctx, prog):
                 try:
                     c = ev(st.test, given)
                 except Unk:
-                    if names_in(st.test) & set(P.values()):
+                    from .c08 import _resolve_local as _rl
+                    deep = set(names_in(st.test))
+                    for nm_ in list(deep):
+                        r_ = _rl(fi.node, ast.Name(id=nm_, ctx=ast.Load()))
+                        if not isinstance(r_, ast.Name):
+                            deep |= names_in(r_)
+                    if deep & set(P.values()):
                         raise AnalysisError(
                             "C01-R9: test %s is not a None-test of the "
                             "forced values" % norm(st.test))
@@ -495,6 +508,25 @@ def r6(ctx, prog):
                 if names in (["sx_min", "sx_max"], ["sy_min", "sy_max"]):
                     b[names[0][:2]] = (s, [norm(e).replace(" ", "")
                                            for e in s.value.elts])
+        # the same bounds written as separate assignments
+        single = {}
+        for s in walk_no_nested(fi.node):
+            if isinstance(s, ast.Assign) and len(s.targets) == 1 and \
+                    isinstance(s.targets[0], ast.Name) and \
+                    s.targets[0].id in ("sx_min", "sx_max", "sy_min",
+                                        "sy_max"):
+                single.setdefault(s.targets[0].id, []).append(s)
+        for ax in ("sx", "sy"):
+            lo_, hi_ = single.get(ax + "_min", []), single.get(ax + "_max", [])
+            if ax not in b and len(lo_) == 1 and len(hi_) == 1:
+                pair = ast.Tuple(elts=[lo_[0].value, hi_[0].value],
+                                 ctx=ast.Load())
+                holder = ast.copy_location(ast.Assign(
+                    targets=[ast.Tuple(elts=[lo_[0].targets[0],
+                                             hi_[0].targets[0]],
+                                       ctx=ast.Store())], value=pair), hi_[0])
+                b[ax] = (holder, [norm(e).replace(" ", "")
+                                  for e in pair.elts])
         if set(b) != {"sx", "sy"}:
             raise AnalysisError("C01-R6: sx/sy bound tuples not found in %s"
                                 % short)
